@@ -47,8 +47,10 @@ Definition sh_ExitStatus (c : child) : Z :=
 (* ------------------------------------------------------------------ values that travel as errors *)
 Inductive value :=
 | VNil                (* nil *)
-| VPlain              (* an error without ExitStatus() *)
-| VFatal (c : Z)      (* mg.Fatal(c, ..) / mg.Fatalf(c, ..): ExitStatus() = c *)
+| VPlain              (* an error value without a method ExitStatus() of its own: errors.New, fmt.Errorf - also with %w
+                         around an mg.Fatal error: the type assertions of handleError / mg.ExitStatus / sh.ExitStatus do
+                         not look through wrappers -, types with Unwrap() returning nil or []error, a typed nil pointer *)
+| VFatal (c : Z)      (* an error value whose own ExitStatus() returns c: mg.Fatal(c, ..) / mg.Fatalf(c, ..), any c in Z *)
 | VOther.             (* a panic value that is not an error (string, int, ...) *)
 
 Definition is_nil (v : value) : bool := match v with VNil => true | _ => false end.
